@@ -12,6 +12,7 @@ import (
 	"fmt"
 	"sync/atomic"
 	"testing"
+	"time"
 	"unsafe"
 )
 
@@ -120,6 +121,7 @@ type c20Env struct {
 func c20NewEnv() *c20Env {
 	conf := testConf()
 	conf.QueueCap = 4096
+	conf.InitializeTimeout = 30 * time.Second // the default 1 s handshake bound is too short on a loaded machine
 	c, s := newClientServerWithNoCheck(conf)
 	return &c20Env{c, s}
 }
